@@ -8,7 +8,7 @@ from ..frontend.pyfront import Repo
 from .common import need_class, need_func, methods
 
 LEVEL = 'other'
-TECHNIQUE = 'abstract interpretation of the real mutator / update methods (world, orbit, tides classes; super() and properties resolved through the class table) on a symbolic object graph; for every enumerated mutator sequence the exposed derived quantities are compared, as polynomial identities in the symbolic state, with those of a freshly built graph placed in the final state; plus a late-binding-closure lint and a cache guard-implication rule over update routines; the same comparison on a three-layer LayeredWorld (model holders stubbed as pure functions of their live inputs) and on a host-only system (tidal host + orbiting body without tides, real world_signature_to_index)'
+TECHNIQUE = 'abstract interpretation of the real mutator / update methods (world, orbit, tides classes; super() and properties resolved through the class table) on a symbolic object graph; for every enumerated mutator sequence the exposed derived quantities are compared, as polynomial identities in the symbolic state, with those of a freshly built graph placed in the final state; tolerance / equality tests on the state are forked and histories re-send the current value after a deferred change; plus a late-binding-closure lint and a cache guard-implication rule over update routines; the same comparison on a three-layer LayeredWorld (model holders stubbed as pure functions of their live inputs) and on a host-only system (tidal host + orbiting body without tides, real world_signature_to_index)'
 LEVEL_TEXT = ('Histories are unbounded; decided is history-independence for all mutator sequences up to length 2 (quick: 1 and selected 2) over {eccentricity, obliquity, spin, semi-major axis / orbital frequency / period, '
               'fixed Q, fixed dt, batched set_state} on the global-approximation (CPL and CTL) tidal model, for ALL numeric values of the state at once, using the repository\'s own methods for every step of the update cascade; '
               'together with two structural rules that cover the layered model: cached fields must be recomputed whenever a field they were computed from is recomputed, and stored closures must not capture loop variables.')
